@@ -5,6 +5,7 @@ import numpy as np
 from vf.api import bounded
 from geometry_tools.automata import fsa, gap_parse, kbmag_utils
 from contracts.fsa_model import Model, coherence_error, all_deterministic_automata
+import contracts.p_fsa  # Engine P contracts (registered on import)
 
 P = "C09"
 A = "geometry_tools/automata/fsa.py:"
